@@ -18,9 +18,23 @@ Open Scope N_scope.
 Definition ALL : list N := Eval vm_compute in 0 :: modelled_sites ++ callee_sites.
 Definition listed (s : N) : Prop := mem_n s ALL = true.
 
+(** the kinds of the errors the parse path constructs: every kind but [Io] and [Format] (those arise from
+    [From<io::Error>] / [From<fmt::Error>] only, i.e. when printing, never while parsing) *)
+Definition parser_kind (k : ekind) : bool := match k with EIo | EFormat => false | _ => true end.
+Definition EK (e : error) : Prop := parser_kind (e_kind e) = true.
+
 Definition okp {A} (Q : A -> Prop) (r : res A) : Prop :=
-  match r with ROk a => Q a | RErr _ _ => True | RPanic s => listed s end.
+  match r with ROk a => Q a | RErr e _ => EK e | RPanic s => listed s end.
 Notation T := (fun _ => True).
+Ltac okleaf := first [exact I | reflexivity | assumption].
+
+Lemma vp_parse_kind vp v k : vp_parse vp v = Some k -> parser_kind k = true.
+Proof.
+  unfold vp_parse. destruct vp;
+    repeat first [ match goal with |- context [if ?b then _ else _] => destruct b end
+                 | match goal with |- context [match ?x with Some _ => _ | None => _ end] => destruct x end ];
+    intros H; inversion H; reflexivity.
+Qed.
 
 Lemma okp_bind {A B} (Q : A -> Prop) (Q' : B -> Prop) r f :
   okp Q r -> (forall a, Q a -> okp Q' (f a)) -> okp Q' (rbind r f).
@@ -34,14 +48,14 @@ Create HintDb okp.
 (** one structural step; [auto with okp] closes calls of functions already treated *)
 Ltac okstep :=
   lazymatch goal with
-  | |- okp _ (ROk _) => cbn [okp fst snd]; try exact I
-  | |- okp _ (RErr _ _) => exact I
+  | |- okp _ (ROk _) => cbn [okp fst snd]; try okleaf
+  | |- okp _ (RErr _ _) => first [reflexivity | assumption | solve [cbn [okp]; unfold EK, mkerr; cbn [e_kind]; eauto using vp_parse_kind] | solve [cbn [okp]; auto with okp]]
   | |- okp _ (RPanic _) => reflexivity
   | |- okp _ (expect _ ?o) => destruct o; cbn [expect]
   | |- okp _ (rbind _ _) => first [solve [auto with okp] | eapply okp_bindT; [|intros ?]]
   | |- okp _ (if ?b then _ else _) => destruct b
   | |- okp _ (let _ := _ in _) => cbn zeta
-  | |- okp _ (match ?x with _ => _ end) => first [solve [auto with okp] | destruct x]
+  | |- okp _ (match ?x with _ => _ end) => first [solve [auto with okp] | destruct x eqn:?]
   | |- okp _ _ => solve [auto with okp]
   end.
 Ltac oksteps := repeat okstep.
@@ -55,7 +69,7 @@ Hint Resolve okp_verify_num_args : okp.
 
 Lemma okp_start_custom_arg a s m : okp T (start_custom_arg c a s m).
 Proof.
-  unfold start_custom_arg. destruct (src_explicit s); [|exact I].
+  unfold start_custom_arg. destruct (src_explicit s); [|okleaf].
   generalize (start_custom_arg_m match s with SCmdLine => remove_overrides c a m | _ => m end a s).
   generalize (groups_for_arg c (a_id a)).
   assert (H : forall l (r : res matcher), okp T r ->
@@ -63,13 +77,13 @@ Proof.
                                            expect 1533 (add_val_to m' g (a_id a))) l r)).
   { induction l as [|g l IH]; intros r Hr; cbn [fold_left]; [exact Hr|].
     apply IH. eapply okp_bindT; [exact Hr|]. intros m0. oksteps. }
-  intros l m2. apply H. exact I.
+  intros l m2. apply H. okleaf.
 Qed.
 Hint Resolve okp_start_custom_arg : okp.
 
 Lemma okp_push_arg_values a : forall raw st, okp T (push_arg_values c a raw st).
 Proof.
-  induction raw as [|v t IH]; intros st; cbn [push_arg_values]; [exact I|].
+  induction raw as [|v t IH]; intros st; cbn [push_arg_values]; [okleaf|].
   oksteps.
 Qed.
 Hint Resolve okp_push_arg_values : okp.
@@ -77,7 +91,7 @@ Hint Resolve okp_push_arg_values : okp.
 Lemma okp_react_core idn s a raw ti st : okp T (react_core c idn s a raw ti st).
 Proof.
   unfold react_core.
-  eapply okp_bindT; [destruct (is_cmdline s); [apply okp_verify_num_args|exact I]|]. intros _.
+  eapply okp_bindT; [destruct (is_cmdline s); [apply okp_verify_num_args|okleaf]|]. intros _.
   match goal with |- okp _ (let '(r, t) := ?x in _) => destruct x as [raw' ti'] end.
   eapply okp_bindT; [oksteps|]. intros raw2.
   cbn zeta.
@@ -115,13 +129,13 @@ Hint Resolve okp_parse_long_arg : okp.
 Lemma okp_short_loop : forall fuel r ret vaf st, okp T (short_loop c fuel r ret vaf st).
 Proof.
   induction fuel as [|f IH]; intros r ret vaf st; cbn [short_loop]; [reflexivity|].
-  destruct (sf_next r) as [[[ch|rest] r']|]; [|exact I|exact I].
+  destruct (sf_next r) as [[[ch|rest] r']|]; [|okleaf|okleaf].
   destruct (get_short c ch) as [a|].
   - destruct (negb (a_takes_value a)).
     + eapply okp_bindT; [apply okp_react|]. intros x. apply IH.
     + match goal with |- okp _ (let '(v, h) := ?x in _) => destruct x as [val has_eq] end.
       eapply okp_bindT; [apply okp_parse_opt_value|]. intros x.
-      destruct (snd x); try exact I. apply IH.
+      destruct (snd x); try okleaf. apply IH.
   - oksteps.
 Qed.
 Hint Resolve okp_short_loop : okp.
@@ -134,18 +148,25 @@ Lemma okp_is_new_arg n a : okp T (is_new_arg c n a).
 Proof. unfold is_new_arg. oksteps. Qed.
 Hint Resolve okp_is_new_arg : okp.
 
+Lemma EK_match_arg_error tok vaf tr : EK (match_arg_error c tok vaf tr).
+Proof.
+  unfold match_arg_error, EK.
+  repeat match goal with |- context [if ?b then _ else _] => destruct b end; reflexivity.
+Qed.
+Hint Resolve EK_match_arg_error : okp.
+
 Definition early_ok (p1 : option (res loop_res) * lstate * ps) : Prop :=
   match fst (fst p1) with Some r => okp T r | None => True end.
 
 Lemma okp_parse_loop : forall toks ls st, okp T (parse_loop c toks ls st).
 Proof.
-  induction toks as [|tok rest IH]; intros ls st; [exact I|].
+  induction toks as [|tok rest IH]; intros ls st; [okleaf|].
   cbn [parse_loop].
   match goal with |- okp _ (rbind ?ph _) => set (phase1 := ph) end.
   assert (Hph : okp early_ok phase1).
-  { subst phase1. destruct (l_trailing ls); [exact I|].
+  { subst phase1. destruct (l_trailing ls); [okleaf|].
     match goal with |- okp _ (match ?x with Some _ => _ | None => _ end) => destruct x as [sc|] end.
-    { destruct (beq sc s_help && negb (is_set s_disable_help_sub c)); exact I. }
+    { destruct (beq sc s_help && negb (is_set s_disable_help_sub c)); okleaf. }
     assert (After : forall x : ps * presult * bool,
       okp early_ok
          (let '(st1, pr, vaf1) := x in
@@ -165,23 +186,23 @@ Proof.
           | PRAttachedNotConsumed => RPanic 203
           end)).
     { intros [[st1 pr] vaf1]. cbn zeta.
-      destruct pr; try exact I; try reflexivity;
+      destruct pr; try okleaf; try reflexivity;
         try (unfold okp, early_ok; cbn [fst snd]; apply IH);
-        (eapply okp_bindT; [apply okp_resolve_pending_ignore|]; intros st2; exact I). }
+        (eapply okp_bindT; [apply okp_resolve_pending_ignore|]; intros st2; okleaf). }
     destruct (is_escape tok).
     { eapply okp_bindT; [apply okp_state_arg|]. intros sa.
-      destruct (match sa with Some a => a_hyphen a | None => false end); [exact I|].
+      destruct (match sa with Some a => a_hyphen a | None => false end); [okleaf|].
       unfold okp, early_ok; cbn [fst snd]. apply IH. }
     destruct (to_long tok) as [[[f ok] v]|].
     { eapply okp_bindT; [apply okp_parse_long_arg|]. intros [[st1 pr] vaf1]. cbn [fst snd].
       pose proof (After (st1, pr, vaf1)) as HA.
       destruct pr; try reflexivity; exact HA. }
-    destruct (to_short tok) as [r|]; [|exact I].
+    destruct (to_short tok) as [r|]; [|okleaf].
     eapply okp_bindT; [apply okp_parse_short_arg|]. intros [[st1 pr] vaf1].
     pose proof (After (st1, pr, vaf1)) as HA.
     destruct pr; try reflexivity; try exact HA.
-    destruct (fs_at st1) as [a|]; [|exact I].
-    destruct (checked_sub (cur_idx st1) a); cbn [expect rbind]; [exact I|reflexivity]. }
+    destruct (fs_at st1) as [a|]; [|okleaf].
+    destruct (checked_sub (cur_idx st1) a); cbn [expect rbind]; [okleaf|reflexivity]. }
   eapply okp_bind; [exact Hph|]. clear Hph phase1.
   intros [[early ls1] st1] H1. unfold early_ok in H1. cbn [fst snd] in H1.
   destruct early as [r|]; [exact H1|]. clear H1.
@@ -212,7 +233,7 @@ Proof.
   { intros pc'. destruct (get_pos c pc') as [a|].
     - destruct (a_last a && negb (l_trailing ls1)); [oksteps|].
       cbn zeta. eapply okp_bindT.
-      { match goal with |- okp _ (if ?b then _ else _) => destruct b end; [apply okp_resolve_pending|exact I]. }
+      { match goal with |- okp _ (if ?b then _ else _) => destruct b end; [apply okp_resolve_pending|okleaf]. }
       intros st2. destruct (check_terminator a tok); [apply IH|].
       eapply okp_bindT; [oksteps|]. intros m1. destruct (negb (a_is_multiple a)); apply IH.
     - oksteps. }
@@ -258,7 +279,7 @@ Proof.
                else match a_env a with
                     | Some v => do x <- react c None SEnv a [v] None st; ROk (fst x)
                     | None => ROk st
-                    end)); [|exact I].
+                    end)); [|okleaf].
   intros st0 a. oksteps.
 Qed.
 Hint Resolve okp_add_env : okp.
@@ -274,38 +295,37 @@ Qed.
 Lemma okp_add_defaults st : okp T (add_defaults c st).
 Proof.
   unfold add_defaults.
-  apply (okp_fold_res (fun st a => add_default_value c a st)); [|exact I].
+  apply (okp_fold_res (fun st a => add_default_value c a st)); [|okleaf].
   intros st0 a. apply okp_add_default_value.
 Qed.
 Hint Resolve okp_add_defaults : okp.
 
 (** the validator *)
-Definition vokp (v : vres) : Prop := match v with VPanic s => listed s | _ => True end.
+Definition vokp (v : vres) : Prop := match v with VPanic s => listed s | VErr k _ => parser_kind k = true | VOk => True end.
 
 Lemma vokp_build_conflict_err name ids : vokp (build_conflict_err c name ids).
 Proof.
-  unfold build_conflict_err. destruct (is_nil ids); [exact I|].
+  unfold build_conflict_err. destruct (is_nil ids); [okleaf|].
   match goal with |- vokp (match ?x with Some _ => _ | None => _ end) => destruct x as [l|] end; [|reflexivity].
   destruct (forallb (fun i => is_some (find_arg c i)) l); [|reflexivity].
-  destruct (find_arg c name); [exact I|reflexivity].
+  destruct (find_arg c name); [okleaf|reflexivity].
 Qed.
 
 Lemma vokp_first_err l : Forall vokp l -> vokp (first_err l).
 Proof.
-  induction 1 as [|v l Hv Hl IH]; cbn [first_err]; [exact I|].
-  destruct v; [exact IH|exact I|exact Hv].
+  induction 1 as [|v l Hv Hl IH]; cbn [first_err]; [okleaf|].
+  destruct v; [exact IH|exact Hv|exact Hv].
 Qed.
 
 Lemma vokp_validate_conflicts m pot : vokp (validate_conflicts c m pot).
 Proof.
   unfold validate_conflicts.
-  destruct (validate_exclusive c m) eqn:E.
-  - apply vokp_first_err. apply Forall_forall. intros v Hv. apply in_map_iff in Hv. destruct Hv as [p [<- _]].
-    destruct (gather_conflicts c pot (fst p)); [apply vokp_build_conflict_err|reflexivity].
-  - exact I.
-  - unfold validate_exclusive in E.
-    destruct (Nat.leb _ 1); [discriminate|].
-    match type of E with match ?x with Some _ => _ | None => _ end = _ => destruct x end; discriminate.
+  assert (Hx : vokp (validate_exclusive c m)).
+  { unfold validate_exclusive. destruct (Nat.leb _ 1); [exact I|].
+    match goal with |- vokp (match ?x with Some _ => _ | None => _ end) => destruct x end; [reflexivity|exact I]. }
+  destruct (validate_exclusive c m) eqn:E; [|exact Hx|exact Hx].
+  apply vokp_first_err. apply Forall_forall. intros v Hv. apply in_map_iff in Hv. destruct Hv as [p [<- _]].
+  destruct (gather_conflicts c pot (fst p)); [apply vokp_build_conflict_err|reflexivity].
 Qed.
 
 Lemma vokp_validate m : vokp (validate c m).
@@ -313,16 +333,16 @@ Proof.
   unfold validate.
   destruct (conflicts_with_args c m) as [pot|]; [|reflexivity].
   cbn zeta.
-  match goal with |- vokp (if ?b then _ else _) => destruct b end; [exact I|].
-  match goal with |- vokp (if ?b then _ else _) => destruct b end; [exact I|].
+  match goal with |- vokp (if ?b then _ else _) => destruct b end; [okleaf|].
+  match goal with |- vokp (if ?b then _ else _) => destruct b end; [okleaf|].
   pose proof (vokp_validate_conflicts m pot) as H.
-  destruct (validate_conflicts c m pot); [|exact I|exact H].
-  match goal with |- vokp (if ?b then _ else _) => destruct b end; [exact I|].
-  destruct (missing_required c m pot) as [[|x l]|]; [exact I|exact I|reflexivity].
+  destruct (validate_conflicts c m pot); [|exact H|exact H].
+  match goal with |- vokp (if ?b then _ else _) => destruct b end; [okleaf|].
+  destruct (missing_required c m pot) as [[|x l]|]; [okleaf|okleaf|reflexivity].
 Qed.
 
 Lemma okp_vres_to_res m st : okp T (vres_to_res c (validate c m) st).
-Proof. pose proof (vokp_validate m) as H. unfold vres_to_res. destruct (validate c m); [exact I|exact I|exact H]. Qed.
+Proof. pose proof (vokp_validate m) as H. unfold vres_to_res. destruct (validate c m); [okleaf|exact H|exact H]. Qed.
 End Level.
 
 #[export] Hint Resolve okp_parse_loop okp_add_env okp_add_defaults okp_resolve_pending okp_vres_to_res : okp.
@@ -338,34 +358,41 @@ Proof.
   apply IH. eapply okp_bindT; [exact Hr|]. intros m. oksteps.
 Qed.
 
+Lemma EK_help_walk : forall names sc, EK (help_walk sc names).
+Proof.
+  induction names as [|n rest IH]; intros sc; cbn [help_walk]; [reflexivity|].
+  destruct (find_subcommand sc n) as [s|]; [|reflexivity].
+  destruct (build_subcommand sc (c_name s)) as [s'|]; [apply IH|reflexivity].
+Qed.
+
 Lemma okp_get_matches_with : forall fuel c toks st0, okp T (get_matches_with fuel c toks st0).
 Proof.
   induction fuel as [|f IH]; intros c toks st0; cbn [get_matches_with]; [reflexivity|].
   match goal with |- okp _ (match ?pp with ROk _ => _ | RErr _ _ => _ | RPanic _ => _ end) => set (parsed := pp) end.
   assert (Hparsed : okp T parsed).
   { subst parsed. eapply okp_bindT; [apply okp_parse_loop|].
-    intros [st|name keep vaf st rest|name vals st|names st]; try exact I.
-    - destruct (is_set s_args_negate_subs c && vaf); [exact I|].
+    intros [st|name keep vaf st rest|name vals st|names st]; [exact I| | |apply EK_help_walk].
+    - destruct (is_set s_args_negate_subs c && vaf); [okleaf|].
       destruct (find_subcommand c name) as [sc0|]; cbn [expect rbind]; [|reflexivity].
-      destruct (build_subcommand c (c_name sc0)) as [sc|]; [|exact I].
+      destruct (build_subcommand c (c_name sc0)) as [sc|]; [|okleaf].
       destruct (negb (assert_app sc)); [reflexivity|].
       cbn zeta.
       match goal with |- okp _ (match get_matches_with f sc rest ?s with _ => _ end) =>
         pose proof (IH sc rest s) as Hs; destruct (get_matches_with f sc rest s) end.
-      + exact I.
-      + destruct (is_set s_ignore_errors c); exact I.
+      + okleaf.
+      + destruct (is_set s_ignore_errors c); [exact I|exact Hs].
       + exact Hs.
-    - cbn zeta. eapply okp_bindT; [apply okp_external_fill; exact I|]. intros m. exact I. }
+    - cbn zeta. eapply okp_bindT; [apply okp_external_fill; okleaf|]. intros m. okleaf. }
   destruct parsed as [st|e st|s].
   - eapply okp_bindT; [apply okp_resolve_pending|]. intros st1.
     eapply okp_bindT; [apply okp_add_env|]. intros st2.
     eapply okp_bindT; [apply okp_add_defaults|]. intros st3.
     apply okp_vres_to_res.
-  - destruct (is_set s_ignore_errors c); [|exact I].
+  - destruct (is_set s_ignore_errors c); [|exact Hparsed].
     pose proof (okp_add_env c st) as He.
     destruct (add_env c st) as [s1|e1 s1|x1]; cbn in He.
-    + pose proof (okp_add_defaults c s1) as Hd. destruct (add_defaults c s1); cbn in Hd |- *; auto.
-    + pose proof (okp_add_defaults c s1) as Hd. destruct (add_defaults c s1); cbn in Hd |- *; auto.
+    + pose proof (okp_add_defaults c s1) as Hd. destruct (add_defaults c s1); cbn in Hd |- *; first [exact Hparsed|exact Hd].
+    + pose proof (okp_add_defaults c s1) as Hd. destruct (add_defaults c s1); cbn in Hd |- *; first [exact Hparsed|exact Hd].
     + exact He.
   - exact Hparsed.
 Qed.
@@ -386,6 +413,18 @@ Proof.
   - destruct (is_set s_ignore_errors (build_self c0) && use_stderr (e_kind e)); discriminate.
   - cbn in H. destruct x as [|p]; [discriminate|]. intros E. inversion E. subst s.
     destruct (listed_in _ H) as [H0|Hin]; [discriminate|exact Hin].
+Qed.
+
+(** the errors of the parse path: every kind except [Io]/[Format] -- for every definition and token list *)
+Theorem parser_error_kinds c0 toks e : do_parse c0 toks = OErr e -> parser_kind (e_kind e) = true.
+Proof.
+  unfold do_parse. destruct (negb (valid c0)); [discriminate|]. cbn zeta.
+  pose proof (okp_get_matches_with (S (S (depth (build_self c0)))) (build_self c0) toks ps_new) as H.
+  destruct (get_matches_with (S (S (depth (build_self c0)))) (build_self c0) toks ps_new) as [st|e' st|x].
+  - discriminate.
+  - destruct (is_set s_ignore_errors (build_self c0) && use_stderr (e_kind e')); [discriminate|].
+    intros E. inversion E. subst e'. exact H.
+  - destruct x; discriminate.
 Qed.
 
 (** the same through [parse_top] *)
